@@ -980,10 +980,10 @@ Hypothesis Hlids : ~ In l ids.
 Hypothesis Hhbet : hb < et.
 Hypothesis Hquorum : Quorum.has_quorum (incoming c) (outgoing c) (l :: ids) = true.
 
-(* [all]: every majority follower is flagged active;  otherwise: flagged or about to
-   be (heartbeat queued), or the next heartbeat comes early enough before the next
-   check-quorum boundary *)
-Definition LInv (all : bool) (L : raft) : Prop :=
+(* every majority follower is flagged active or pending ([pend]: a heartbeat is queued
+   for it), or the next heartbeat comes early enough before the next check-quorum
+   boundary *)
+Definition LInv (pend : N -> Prop) (L : raft) : Prop :=
   r_state L = Leader /\ r_term L = t /\ r_id L = l /\ r_leader_id L = l /\
   r_check_quorum L = true /\ r_lead_transferee L = None /\
   r_heartbeat_timeout L = hb /\ r_election_timeout L = et /\
@@ -991,7 +991,7 @@ Definition LInv (all : bool) (L : raft) : Prop :=
   t_conf (r_prs L) = c /\
   (forall id, In id (l :: ids) -> get_pr L id <> None) /\
   Forall (QL ids l t) (r_msgs L) /\
-  ((forall id, In id ids -> act L id \/ (all = false /\ hbq L id)) \/
+  ((forall id, In id ids -> act L id \/ pend id) \/
    hb + r_election_elapsed L < et + r_heartbeat_elapsed L).
 
 Lemma LF_act L L' id : LF ids L L' -> act L id -> act L' id.
@@ -1003,8 +1003,8 @@ Proof.
   exists x'. split; [exact Hx'|split; congruence].
 Qed.
 
-Lemma LInv_LF all L L' : LInv all L -> LF ids L L' ->
-  LInv all L' /\ r_heartbeat_elapsed L' = r_heartbeat_elapsed L.
+Lemma LInv_LF pend L L' : LInv pend L -> LF ids L L' ->
+  LInv pend L' /\ r_heartbeat_elapsed L' = r_heartbeat_elapsed L.
 Proof.
   intros (I1 & I2 & I3 & I4 & I5 & I6 & I7 & I8 & I9 & I10 & I11 & I12 & I13 & I14) HLF.
   pose proof HLF as (K & (W1 & W2 & W3 & W4 & W5) & (Q & _)).
@@ -1018,13 +1018,20 @@ Proof.
     destruct (W5 id p G) as (p' & G' & _). congruence. }
   split; [rewrite I3, I2 in Q; apply Q, I13|].
   destruct I14 as [A|A]; [left|right; lia].
-  intros id Hid. destruct (A id Hid) as [B|[B1 B2]]; [left; eapply LF_act; eassumption|].
-  right. split; [exact B1|eapply LF_hbq; eassumption].
+  intros id Hid. destruct (A id Hid) as [B|B]; [left; eapply LF_act; eassumption|right; exact B].
 Qed.
 
-Lemma LInv_step all L m L' cc :
-  LInv all L -> okL ids t m -> step L m = Ok (L', cc) ->
-  LInv all L' /\ LF ids L L' /\
+Lemma LInv_weaken (pend pend' : N -> Prop) L :
+  (forall id, In id ids -> pend id -> pend' id) -> LInv pend L -> LInv pend' L.
+Proof.
+  intros Himp (I1 & I2 & I3 & I4 & I5 & I6 & I7 & I8 & I9 & I10 & I11 & I12 & I13 & I14).
+  repeat (split; [assumption|]). destruct I14 as [A|A]; [left|right; exact A].
+  intros id Hid. destruct (A id Hid) as [B|B]; [left; exact B|right; apply Himp; assumption].
+Qed.
+
+Lemma LInv_step (pend : N -> Prop) L m L' cc :
+  LInv pend L -> okL ids t m -> step L m = Ok (L', cc) ->
+  LInv pend L' /\ LF ids L L' /\
   ((m_type m = MsgHeartbeatResponse \/ m_type m = MsgAppendResponse) -> m_term m = t ->
    In (m_from m) ids -> act L' (m_from m)).
 Proof.
@@ -1037,17 +1044,17 @@ Proof.
   destruct (get_pr L (m_from m)) as [p|] eqn:E; [|congruence]. exact (Hact p E).
 Qed.
 
-Lemma LInv_steps : forall ms all L L',
-  LInv all L -> Forall (okL ids t) ms -> steps L ms = Ok L' ->
-  LInv all L' /\ LF ids L L' /\
+Lemma LInv_steps (pend : N -> Prop) : forall ms L L',
+  LInv pend L -> Forall (okL ids t) ms -> steps L ms = Ok L' ->
+  LInv pend L' /\ LF ids L L' /\
   (forall x, In x ms -> (m_type x = MsgHeartbeatResponse \/ m_type x = MsgAppendResponse) ->
              m_term x = t -> In (m_from x) ids -> act L' (m_from x)).
 Proof.
-  induction ms as [|m rest IH]; intros all L L' HI Hok H; cbn [steps] in H.
+  induction ms as [|m rest IH]; intros L L' HI Hok H; cbn [steps] in H.
   - okinv H. split; [exact HI|]. split; [apply LF_refl|]. intros x [].
   - inversion Hok as [|? ? Hm Hrest]; subst. ib H y Hy. destruct y as [L1 c1]. cbn [fst] in H.
     destruct (LInv_step _ _ _ _ _ HI Hm Hy) as (I1 & F1 & A1).
-    destruct (IH _ _ _ I1 Hrest H) as (I2 & F2 & A2).
+    destruct (IH _ _ I1 Hrest H) as (I2 & F2 & A2).
     split; [exact I2|]. split; [eapply LF_trans; eassumption|].
     intros x [<-|Hx] Hty Hterm Hin; [|apply A2; assumption].
     eapply LF_act; [exact F2|]. apply A1; assumption.
@@ -1086,8 +1093,8 @@ Proof.
     cbn. rewrite A. apply orb_true_r.
 Qed.
 
-Lemma all_act_quorum L :
-  LInv true L -> (forall id, In id ids -> act L id) ->
+Lemma all_act_quorum pend L :
+  LInv pend L -> (forall id, In id ids -> act L id) ->
   prs_has_quorum (r_prs L) (active_ids (r_prs L) (r_id L)) = true.
 Proof.
   intros (I1 & I2 & I3 & I4 & I5 & I6 & I7 & I8 & I9 & I10 & I11 & I12 & I13 & I14) A.
@@ -1147,8 +1154,8 @@ Qed.
    heartbeat was due (counter + 1, queue untouched) or one is queued for every majority
    follower *)
 Lemma leader_tick_LInv L1 L2 b :
-  LInv true L1 -> tick L1 = Ok (L2, b) ->
-  LInv false L2 /\
+  LInv (fun _ => False) L1 -> tick L1 = Ok (L2, b) ->
+  LInv (hbq L2) L2 /\
   ((r_heartbeat_elapsed L2 = r_heartbeat_elapsed L1 + 1 /\ r_heartbeat_elapsed L1 + 1 < hb /\
     r_msgs L2 = r_msgs L1) \/
    (r_heartbeat_elapsed L2 = 0 /\ forall id, In id ids -> hbq L2 id)).
@@ -1162,15 +1169,15 @@ Proof.
     destruct H as [(E & H0 & Hq & HQ & ->)|(E & ->)].
     + split; [|right; split; [reflexivity|exact Hq]].
       unfold LInv. cbn. do 11 (split; [first [assumption|reflexivity|lia]|]). split; [exact I12|]. split; [exact HQ|].
-      left. intros id Hid. right. split; [reflexivity|]. apply Hq, Hid.
+      left. intros id Hid. right. apply Hq, Hid.
     + cbn in E. split; [|left; cbn; repeat split; lia].
       unfold LInv. cbn. do 11 (split; [first [assumption|reflexivity|lia]|]). split; [exact I12|]. split; [exact I13|].
       destruct I14 as [A|A]; [left|right; lia].
-      intros id Hid. destruct (A id Hid) as [B|[B _]]; [left; exact B|discriminate].
+      intros id Hid. destruct (A id Hid) as [B|[]]. left; exact B.
   - (* the check-quorum boundary *)
     assert (Hall : forall id, In id ids -> act L1 id).
-    { destruct I14 as [A|A]; [|lia]. intros id Hid. destruct (A id Hid) as [B|[B _]]; [exact B|discriminate]. }
-    rewrite (checkquorum_stepdown L1 I1 Hb), I5, (all_act_quorum L1 HI Hall) in H.
+    { destruct I14 as [A|A]; [|lia]. intros id Hid. destruct (A id Hid) as [B|[]]. exact B. }
+    rewrite (checkquorum_stepdown L1 I1 Hb), I5, (all_act_quorum _ L1 HI Hall) in H.
     assert (Hg : forall id, In id (l :: ids) -> get_pr (after_check L1 true) id <> None).
     { intros id Hid. unfold get_pr, after_check. cbn. rewrite pget_clear_active.
       specialize (I12 id Hid). unfold get_pr in I12. destruct (pget _ id); [discriminate|congruence]. }
@@ -1178,7 +1185,7 @@ Proof.
     destruct H as [(E & H0 & Hq & HQ & ->)|(E & ->)].
     + split; [|right; split; [reflexivity|exact Hq]].
       unfold LInv. cbn. do 11 (split; [first [assumption|reflexivity|lia]|]). split; [exact Hg|]. split; [exact HQ|].
-      left. intros id Hid. right. split; [reflexivity|]. apply Hq, Hid.
+      left. intros id Hid. right. apply Hq, Hid.
     + cbn in E. split; [|left; cbn; repeat split; lia].
       unfold LInv. cbn. do 11 (split; [first [assumption|reflexivity|lia]|]). split; [exact Hg|]. split; [exact I13|].
       right. lia.
@@ -1333,7 +1340,7 @@ Qed.
 
 (* the window invariant *)
 Definition WInv (vs : list N) (L : raft) (Fs : list raft) : Prop :=
-  LInv ids l t hb et c false L /\ map r_id Fs = ids /\ map r_vote Fs = vs /\
+  LInv ids l t hb et c (hbq L) L /\ map r_id Fs = ids /\ map r_vote Fs = vs /\
   Forall (fun F => FInv l t hb (r_heartbeat_elapsed L) (hbq L (r_id F)) F) Fs.
 
 (* delivery of one adversarial message to the node(s) with id [tgt] *)
@@ -1377,9 +1384,9 @@ Proof.
   intros (HL & Hid & Hv & HF) Hadv H. unfold deliver in H. cbn [fst snd] in H.
   destruct (fst tm =? r_id L).
   - ib H y Hy. injection H as HL' HFs'. subst L' Fs'. destruct y as [L1 c1]. cbn [fst].
-    destruct (LInv_step' false _ _ _ _ HL (adv_okL _ Hadv) Hy) as (J & F1 & _).
-    pose proof (LInv_LF' false _ _ HL F1) as [_ Hhe].
-    split; [exact J|]. split; [exact Hid|]. split; [exact Hv|].
+    destruct (LInv_step' (hbq L) _ _ _ _ HL (adv_okL _ Hadv) Hy) as (J & F1 & _).
+    pose proof (LInv_LF' (hbq L) _ _ HL F1) as [_ Hhe].
+    split; [eapply LInv_weaken; [|exact J]; intros id _; apply (LF_hbq ids); exact F1|]. split; [exact Hid|]. split; [exact Hv|].
     rewrite Hhe. eapply Forall_impl; [|exact HF]. intros F. apply FInv_weaken.
     apply (LF_hbq ids). exact F1.
   - ib H Fs1 H1. injection H as HL' HFs'. subst L' Fs'. apply mapM_Forall2 in H1.
@@ -1409,4 +1416,165 @@ Proof.
     eapply IH; [|exact Hr|exact H]. eapply deliver_WInv; eassumption.
 Qed.
 
-End Round.
+
+(* ------------------------------------------------------------------ *)
+(* the lock-step round *)
+
+Lemma Forall2_In_l {A B} (P : A -> B -> Prop) xs ys x :
+  Forall2 P xs ys -> In x xs -> exists y, In y ys /\ P x y.
+Proof.
+  induction 1 as [|a b xs' ys' Hab Hrest IH]; intros Hin; [destruct Hin|].
+  destruct Hin as [<-|Hin]; [exists b; split; [left; reflexivity|exact Hab]|].
+  destruct (IH Hin) as (y & Hy & Py). exists y. split; [right; exact Hy|exact Py].
+Qed.
+
+Lemma Forall2_cons_inv {A B} (P : A -> B -> Prop) a xs ys :
+  Forall2 P (a :: xs) ys -> exists b ys', ys = b :: ys' /\ P a b /\ Forall2 P xs ys'.
+Proof. intros H. inversion H; subst. eauto. Qed.
+
+Lemma Forall2_nil_inv {A B} (P : A -> B -> Prop) ys : Forall2 P [] ys -> ys = [].
+Proof. intros H. inversion H. reflexivity. Qed.
+
+Lemma to_peer_In id ms x : In x (to_peer id ms) <-> In x ms /\ m_to x = id.
+Proof. unfold to_peer. rewrite filter_In, N.eqb_eq. reflexivity. Qed.
+
+(* what the leader has queued for a majority follower is fit for it *)
+Lemma QL_okF L id x :
+  Forall (QL ids l t) (r_msgs L) -> In id ids -> In x (to_peer id (r_msgs L)) ->
+  okF l t x /\ m_from x = l /\ m_term x = t.
+Proof.
+  intros HQ Hid Hx. apply to_peer_In in Hx. destruct Hx as [Hx Hto].
+  rewrite Forall_forall in HQ. specialize (HQ x Hx). unfold QL in HQ. rewrite Hto in HQ.
+  destruct (HQ Hid) as (Hf & Hterm & Hty). split; [|split; assumption].
+  assert (Hnv : m_type x <> MsgHup /\ m_type x <> MsgTimeoutNow /\ m_type x <> MsgTransferLeader /\
+                m_type x <> MsgRequestVote /\ m_type x <> MsgRequestPreVote).
+  { destruct Hty as [E|[E|[E|[E|E]]]]; rewrite E; repeat split; discriminate. }
+  destruct Hnv as (N1 & N2 & N3 & N4 & N5).
+  split; [exact N1|]. split; [exact N2|]. split; [exact N3|]. split; [left; lia|].
+  split; [intros _; split; [congruence|intros _; exact Hf]|].
+  intros [C|C]; contradiction.
+Qed.
+
+(* what a majority follower has queued for the leader is fit for it *)
+Lemma QF_okL F1 x :
+  Forall (QF l t) (r_msgs F1) -> In x (replies l F1) -> okL ids t x.
+Proof.
+  intros HQ Hx. unfold replies in Hx. apply to_peer_In in Hx. destruct Hx as [Hx Hto].
+  rewrite Forall_forall in HQ. destruct (HQ x Hx Hto) as (Hterm & N1 & N2 & N3 & N4).
+  split; [exact N1|]. split; [exact N2|]. split; [left; exact Hterm|].
+  intros [C|C]; contradiction.
+Qed.
+
+(* step 1 of the round, one follower *)
+Lemma follower_exchange L F F1 :
+  Forall (QL ids l t) (r_msgs L) -> In (r_id F) ids ->
+  FInv l t hb (r_heartbeat_elapsed L) (hbq L (r_id F)) F ->
+  steps F (to_peer (r_id F) (r_msgs L)) = Ok F1 ->
+  r_id F1 = r_id F /\ r_vote F1 = r_vote F /\
+  FInv l t hb (r_heartbeat_elapsed L) (hbq L (r_id F)) F1 /\
+  (hbq L (r_id F) ->
+   r_election_elapsed F1 = 0 /\
+   exists x, In x (replies l F1) /\ m_from x = r_id F /\ m_term x = t /\
+             (m_type x = MsgHeartbeatResponse \/ m_type x = MsgAppendResponse)).
+Proof.
+  intros HQ Hid HF H.
+  assert (Hok : Forall (okF l t) (to_peer (r_id F) (r_msgs L))).
+  { apply Forall_forall. intros x Hx. eapply QL_okF; eassumption. }
+  destruct (FInv_steps' _ _ _ _ _ HF Hok H) as (J & A & B & C0 & D & N0).
+  split; [exact A|]. split; [exact B|]. split; [exact J|].
+  intros (x & Hx & Hto & Hty).
+  assert (Hxp : In x (to_peer (r_id F) (r_msgs L))) by (apply to_peer_In; auto).
+  destruct (QL_okF _ _ _ HQ Hid Hxp) as (_ & Hfrom & Hterm).
+  split.
+  - apply D. exists x. split; [exact Hxp|]. split; [|exact Hterm].
+    unfold from_leader. rewrite Hty. reflexivity.
+  - destruct (steps_heartbeat_reply l t hb Ht0 Hl0 _ _ _ _ _ HF Hok H) as (y & Y0 & Y1 & Y2 & Y3 & Y4);
+      [exists x; auto|].
+    exists y. split; [unfold replies; apply to_peer_In; auto|auto].
+Qed.
+
+Lemma LInv_all (pend : N -> Prop) L :
+  LInv ids l t hb et c pend L -> (forall id, In id ids -> pend id -> act L id) ->
+  LInv ids l t hb et c (fun _ => False) L.
+Proof.
+  intros (I1 & I2 & I3 & I4 & I5 & I6 & I7 & I8 & I9 & I10 & I11 & I12 & I13 & I14) Hp.
+  repeat (split; [assumption|]). destruct I14 as [A|A]; [left|right; exact A].
+  intros id Hid. destruct (A id Hid) as [B|B]; [left; exact B|left; apply Hp; assumption].
+Qed.
+
+Lemma LInv_empty_queue (pend : N -> Prop) L :
+  LInv ids l t hb et c pend L -> LInv ids l t hb et c pend (L <| r_msgs := [] |>).
+Proof.
+  intros (I1 & I2 & I3 & I4 & I5 & I6 & I7 & I8 & I9 & I10 & I11 & I12 & I13 & I14).
+  unfold LInv. cbn. repeat (split; [assumption|]). split; [constructor|exact I14].
+Qed.
+
+Theorem star_round_WInv vs L Fs L' Fs' :
+  WInv vs L Fs -> star_round L Fs = Ok (L', Fs') -> WInv vs L' Fs'.
+Proof.
+  intros (HL & Hid & Hv & HF) H. unfold star_round in H.
+  ib H Fs1 H1. ib H L1 HL1. ib H L2 HL2. ib H Fs2 H2. injection H as HL' HFs'. subst L' Fs'.
+  pose proof HL as (I1 & I2 & I3 & I4 & I5 & I6 & I7 & I8 & I9 & I10 & I11 & I12 & I13 & I14).
+  (* step 1 *)
+  apply mapM_Forall2 in H1.
+  assert (Hin : forall F, In F Fs -> In (r_id F) ids)
+    by (intros F HFin; rewrite <- Hid; apply in_map; exact HFin).
+  assert (G1 : Forall2 (fun F F1 =>
+     r_id F1 = r_id F /\ r_vote F1 = r_vote F /\
+     FInv l t hb (r_heartbeat_elapsed L) (hbq L (r_id F)) F1 /\
+     (hbq L (r_id F) ->
+      r_election_elapsed F1 = 0 /\
+      exists x, In x (replies l F1) /\ m_from x = r_id F /\ m_term x = t /\
+                (m_type x = MsgHeartbeatResponse \/ m_type x = MsgAppendResponse))) Fs Fs1).
+  { clear Hid Hv H2 HL HL1 HL2. revert HF Hin.
+    induction H1 as [|F F1 Fs0 Fs10 Hx Hrest IH]; intros HF Hin; [constructor|].
+    apply Forall_cons_iff in HF. destruct HF as [HF0 HFr]. constructor.
+    - eapply follower_exchange; [exact I13|apply Hin; left; reflexivity|exact HF0|exact Hx].
+    - apply IH; [exact HFr|]. intros F' HF'. apply Hin. right. exact HF'. }
+  (* step 2 *)
+  rewrite I3 in HL1.
+  assert (Hok2 : Forall (okL ids t) (concat (map (replies l) Fs1))).
+  { apply Forall_forall. intros x Hx. apply in_concat in Hx. destruct Hx as (ys & Hys & Hx).
+    apply in_map_iff in Hys. destruct Hys as (F1 & <- & HF1).
+    eapply QF_okL; [|exact Hx].
+    clear -G1 HF1. induction G1 as [|a b ? ? (_ & _ & A & _)]; [destruct HF1|].
+    destruct HF1 as [<-|HF1]; [apply A|apply IHG1, HF1]. }
+  destruct (LInv_steps' (hbq L) _ _ _ (LInv_empty_queue _ _ HL) Hok2 HL1) as (J1 & LF1 & Act1).
+  assert (He1 : r_heartbeat_elapsed L1 = r_heartbeat_elapsed L).
+  { destruct LF1 as (_ & (_ & E & _) & _). exact E. }
+  assert (J1' : LInv ids l t hb et c (fun _ => False) L1).
+  { eapply LInv_all; [exact J1|]. intros id Hidin Hq.
+    rewrite <- Hid in Hidin. apply in_map_iff in Hidin. destruct Hidin as (F & <- & HFin).
+    destruct (Forall2_In_l _ _ _ _ G1 HFin) as (F1 & HF1 & (_ & _ & _ & R)).
+    destruct (R Hq) as (_ & x & Hx & X1 & X2 & X3).
+    rewrite <- X1. apply Act1; [|exact X3|exact X2|rewrite X1; apply Hin, HFin].
+    apply in_concat. exists (replies l F1). split; [apply in_map; exact HF1|exact Hx]. }
+  (* step 3 *)
+  destruct L2 as [L2 b2]. cbn [fst] in *.
+  destruct (leader_tick_LInv' _ _ _ J1' HL2) as (J2 & Hbeat).
+  (* step 4 *)
+  apply mapM_Forall2 in H2.
+  assert (G2 : Forall2 (fun F F2 =>
+     r_id F2 = r_id F /\ r_vote F2 = r_vote F /\
+     FInv l t hb (r_heartbeat_elapsed L2) (hbq L2 (r_id F2)) F2) Fs Fs2).
+  { clear Hid Hv Hok2 Act1 HL1 H1. revert Fs2 H2 HF Hin.
+    induction G1 as [|F F1 Fs0 Fs10 (A1 & B1 & C1 & D1) Hrest IH]; intros Fs2 H2 HF Hin.
+    - apply Forall2_nil_inv in H2. rewrite H2. constructor.
+    - apply Forall2_cons_inv in H2. destruct H2 as (F2 & Fs20 & -> & Hx & Hr).
+      apply Forall_cons_iff in HF. destruct HF as [HF0 HFr].
+      constructor; [|apply IH; [exact Hr|exact HFr|intros F' HF'; apply Hin; right; exact HF']].
+      destruct C1 as (S1 & S2 & S3 & S4 & S5 & S6 & S7 & S8 & S9).
+      assert (Hle : r_election_elapsed F1 <= r_heartbeat_elapsed L).
+      { destruct S9 as [Hq|Hle]; [|exact Hle]. destruct (D1 Hq) as [Z _]. lia. }
+      rewrite tick_waits in Hx; [|cbn; congruence|cbn; lia].
+      cbn [bind fst] in Hx. injection Hx as <-.
+      split; [exact A1|]. split; [exact B1|].
+      unfold FInv. cbn. repeat (split; [assumption|]). split; [constructor|].
+      destruct Hbeat as [(E1 & E2 & _)|(E1 & E2)].
+      + split; [lia|]. right. lia.
+      + split; [lia|]. left. rewrite A1. apply E2. apply Hin. left. reflexivity. }
+  split; [exact J2|].
+  split; [rewrite <- Hid; apply Forall2_map_eq; eapply Forall2_imp; [|exact G2]; intros a b (A & _); exact A|].
+  split; [rewrite <- Hv; apply Forall2_map_eq; eapply Forall2_imp; [|exact G2]; intros a b (_ & A & _); exact A|].
+  clear -G2. induction G2 as [|a b ? ? (_ & _ & A)]; constructor; assumption.
+Qed.
